@@ -32,6 +32,11 @@ deriving instance DecidableEq for Except
 
 abbrev Res := Except Panic
 
+/-- `Option::unwrap` -/
+def unwrapOpt {α : Type} : Option α → Res α
+  | some x => .ok x
+  | none => .error .unwrapNone
+
 /-- A numeric literal exactly as written: `digits·10^(exp - nfrac)`, negated if
 `neg`.  `isFloat` records whether rustc lexes it as a float literal (it has a
 `.` or an exponent). -/
